@@ -13,6 +13,23 @@ use std::cell::RefCell;
 #[derive(Clone, Copy, Debug, PartialEq, Eq, PartialOrd, Ord, Hash, Default)]
 pub struct V(pub u8);
 
+/// INHERENT methods named like the comparison-trait methods, giving wrong answers: generated code that compares or
+/// hashes a field in method syntax (`a.cmp(&b)`) instead of through the trait path would pick these up
+impl V {
+    pub fn cmp(&self, _: &Self) -> Ordering {
+        Ordering::Less
+    }
+    pub fn partial_cmp(&self, _: &Self) -> Option<Ordering> {
+        None
+    }
+    pub fn eq(&self, _: &Self) -> bool {
+        false
+    }
+    pub fn ne(&self, _: &Self) -> bool {
+        false
+    }
+    pub fn hash<H>(&self, _: &mut H) {}
+}
 impl V {
     pub fn k_ord(&self) -> u8 {
         self.0 % 2
@@ -557,6 +574,20 @@ pub mod probe {
             impl<'a> core::ops::$TrA<&'a $T> for $T { fn $fa(&mut self, _: &'a $T) {} }
         )*};
     }
+    /// like `Yes`, except that `&Tie op &Tie` exists only for two references of the SAME lifetime
+    #[derive(Clone, Copy, Debug, Default, PartialEq, Eq, PartialOrd, Ord, Hash)]
+    pub struct Tie;
+    impl Marker for Tie {}
+    macro_rules! tied_forms {
+        ($T:ident; $(($Tr:ident, $f:ident, $TrA:ident, $fa:ident)),*) => {$(
+            impl core::ops::$Tr<$T> for $T { type Output = $T; fn $f(self, _: $T) -> $T { $T } }
+            impl<'a> core::ops::$Tr<&'a $T> for $T { type Output = $T; fn $f(self, _: &'a $T) -> $T { $T } }
+            impl<'a> core::ops::$Tr<$T> for &'a $T { type Output = $T; fn $f(self, _: $T) -> $T { $T } }
+            impl<'a> core::ops::$Tr<&'a $T> for &'a $T { type Output = $T; fn $f(self, _: &'a $T) -> $T { $T } }
+            impl core::ops::$TrA<$T> for $T { fn $fa(&mut self, _: $T) {} }
+            impl<'a> core::ops::$TrA<&'a $T> for $T { fn $fa(&mut self, _: &'a $T) {} }
+        )*};
+    }
     macro_rules! owned_forms {
         ($T:ident; $(($Tr:ident, $f:ident, $TrA:ident, $fa:ident)),*) => {$(
             impl core::ops::$Tr<$T> for $T { type Output = $T; fn $f(self, _: $T) -> $T { $T } }
@@ -564,6 +595,7 @@ pub mod probe {
         )*};
     }
     all_forms!(Yes; (Add, add, AddAssign, add_assign), (Sub, sub, SubAssign, sub_assign), (Mul, mul, MulAssign, mul_assign), (Div, div, DivAssign, div_assign), (Rem, rem, RemAssign, rem_assign), (BitAnd, bitand, BitAndAssign, bitand_assign), (BitOr, bitor, BitOrAssign, bitor_assign), (BitXor, bitxor, BitXorAssign, bitxor_assign), (Shl, shl, ShlAssign, shl_assign), (Shr, shr, ShrAssign, shr_assign));
+    tied_forms!(Tie; (Add, add, AddAssign, add_assign), (Sub, sub, SubAssign, sub_assign), (Mul, mul, MulAssign, mul_assign), (Div, div, DivAssign, div_assign), (Rem, rem, RemAssign, rem_assign), (BitAnd, bitand, BitAndAssign, bitand_assign), (BitOr, bitor, BitOrAssign, bitor_assign), (BitXor, bitxor, BitXorAssign, bitxor_assign), (Shl, shl, ShlAssign, shl_assign), (Shr, shr, ShrAssign, shr_assign));
     all_forms!(AN; (Add, add, AddAssign, add_assign), (Sub, sub, SubAssign, sub_assign), (Mul, mul, MulAssign, mul_assign), (Div, div, DivAssign, div_assign), (Rem, rem, RemAssign, rem_assign), (BitAnd, bitand, BitAndAssign, bitand_assign), (BitOr, bitor, BitOrAssign, bitor_assign), (BitXor, bitxor, BitXorAssign, bitxor_assign), (Shl, shl, ShlAssign, shl_assign), (Shr, shr, ShrAssign, shr_assign));
     owned_forms!(Own; (Add, add, AddAssign, add_assign), (Sub, sub, SubAssign, sub_assign), (Mul, mul, MulAssign, mul_assign), (Div, div, DivAssign, div_assign), (Rem, rem, RemAssign, rem_assign), (BitAnd, bitand, BitAndAssign, bitand_assign), (BitOr, bitor, BitOrAssign, bitor_assign), (BitXor, bitxor, BitXorAssign, bitxor_assign), (Shl, shl, ShlAssign, shl_assign), (Shr, shr, ShrAssign, shr_assign));
     macro_rules! unary_all {
@@ -574,6 +606,7 @@ pub mod probe {
     }
     unary_all!(Yes; (Neg, neg), (Not, not));
     unary_all!(AN; (Neg, neg), (Not, not));
+    unary_all!(Tie; (Neg, neg), (Not, not));
     impl core::ops::Neg for Own { type Output = Own; fn neg(self) -> Own { Own } }
     impl core::ops::Not for Own { type Output = Own; fn not(self) -> Own { Own } }
 
